@@ -46,6 +46,8 @@ func init() {
 		MinRuns:    200,
 		Exec:       runC13,
 		PanicClass: panicInRepo("trie-panic"),
+		// reach probes every batch is expected to hit (listed in the evidence as probes_never_hit otherwise)
+		ExpectedProbes: []string{"commit-of-32+-keys", "continued-on-reopened-root", "embedded-node-in-trie", "gc-with-other-live-roots", "leaf-references-other-root", "proof-all-single-byte-flips", "proof-of-absent-key", "proof-of-present-key", "rebuilt-in-other-order", "restart-with-unpersisted-roots", "same-root-committed-again", "value-at-branch"},
 	})
 }
 
@@ -169,8 +171,8 @@ type rootRec struct {
 	gen       keyGen
 	limit     uint16
 	content   map[string][]byte
-	pins      int  // outstanding Reference(root, {}) calls
-	persisted bool // Database.Commit(root) (or of a parent referencing it) returned
+	pins      int           // outstanding Reference(root, {}) calls
+	persisted bool          // Database.Commit(root) (or of a parent referencing it) returned
 	links     []common.Hash // roots referenced from leaf values of this trie (in key order)
 }
 
@@ -205,7 +207,7 @@ type env13 struct {
 	cur   int
 	nextW int
 	// proofs remembered for node substitution
-	otherProof [][]byte
+	otherProof  [][]byte
 	flipAllDone bool
 }
 
